@@ -70,6 +70,8 @@ pub enum Cmd {
     All { id: u32, tid: u32, cs: Vec<AllItem> },
     MapEffect { id: u32, tid: u32, f: String, c: Box<Cmd> },
     MapEvent { id: u32, tid: u32, f: String, c: Box<Cmd> },
+    /// Command::from(c) / c.into(): map_effect(Into::into) inside (id2, tid2), map_event(Into::into) outside (id, tid)
+    Into { id: u32, tid: u32, id2: u32, tid2: u32, via_from: bool, c: Box<Cmd> },
     Async { id: u32, tid: u32, code: Vec<Instr> },
 }
 
@@ -235,6 +237,12 @@ impl Builder {
                     Event::Em { o, tag, val } => Event::Em { o, tag, val: apply_f(&f, val) },
                     other => other,
                 });
+                self.reg(*id, &c);
+                c
+            }
+            Cmd::Into { id, via_from, c, .. } => {
+                let sub = self.build(c);
+                let c: Cmd_ = if *via_from { Command::from(sub) } else { sub.into() };
                 self.reg(*id, &c);
                 c
             }
